@@ -71,10 +71,6 @@ func (s *stream) partAt(p int) string {
 	}
 	cmd := s.Bytes[start:s.Ends[k]]
 	off := p - start
-	word := strings.ToUpper(s.Cmds[k][0])
-	if len(word) > 10 {
-		word = word[:10]
-	}
 	big := ""
 	if len(cmd) > 60000 {
 		big = "big-"
@@ -157,8 +153,6 @@ func (s *stream) partAt(p int) string {
 			return big + "http-body"
 		}
 	}
-	_ = word
-	return "?"
 }
 
 func indexCRLF(b []byte, from int) int {
